@@ -321,6 +321,8 @@ def run(P, R, tier):
     # the +! hold is taken from the net mode set: a set must win over an earlier clear of the same letter
     from . import c05, c06
     c05.mode_update(P, R, 'C02.MPT.4')
+    # the stamp that released the +! hold is still there at acceptance: no later reply replaces it by an empty one
+    c05.account_nonempty(P, R, c05.account_writers(P, Remap(R, {})), 'C02.GRD.8')
     # a second PASS (after AGAIN) is parsed as credentials again, so a +! added by the retry is honoured
     xq, b = c06.builder(P)
     c06.query_callers(P, Remap(R, {'C06.GRD.4': 'C02.GRD.7'}), xq, b)
